@@ -13,6 +13,30 @@ def load_known_classes(cfg, prop):
                 res.add(r["class"])
     return res
 
+def inventory(cfg):
+    """coverage tie (not a verdict): the Diff variants and the public mutating UserModel methods that exist
+    in /repo now, against the methods the operation language of harness/hist exercises"""
+    import re, glob
+    repo = "/repo/base/src/user_model"
+    try:
+        hist = open(os.path.join(repo, "history.rs")).read()
+        body = hist[hist.index("pub(crate) enum Diff {"):]
+        body = body[:body.index("\n}\n")]
+        variants = re.findall(r"^    ([A-Z][A-Za-z]+)\s*[{(,]", body, re.M)
+        methods = set()
+        for f in glob.glob(os.path.join(repo, "*.rs")):
+            src = open(f).read()
+            for m in re.finditer(r"pub fn (\w+)\s*(?:<[^>]*>)?\(\s*&mut self", src):
+                methods.add(m.group(1))
+        ops = open(os.path.join(cfg["root"], "harness/hist/src/ops.rs")).read() + open(os.path.join(cfg["root"], "harness/hist/src/driver.rs")).read()
+        used = set(re.findall(r"\bm\.(\w+)\(", ops))
+        ui = {m for m in methods if m.startswith("on_") or m.startswith("set_selected") or m.startswith("set_window") or m in ("set_top_left_visible_cell",)}
+        not_ex = sorted(methods - used - ui - {"undo", "redo", "evaluate", "pause_evaluation", "resume_evaluation", "flush_send_queue", "apply_external_diffs", "set_language"})
+        return {"diff_variants_in_repo": len(variants), "mutating_methods_in_repo": len(methods), "methods_exercised_by_op_language": len(methods & used),
+                "ui_selection_methods_left_to_C28": len(ui), "mutating_methods_not_exercised": not_ex}
+    except Exception as e:
+        return {"error": repr(e)}
+
 def run_hist(cfg, p, rule):
     rc, log, meta = run_harness(cfg, p)
     if rc != 0:
@@ -45,7 +69,7 @@ def run_hist(cfg, p, rule):
         "extra": {"input_distribution": meta.get("distribution", {}), "oracle_checked": meta.get("oracle_checked", 0),
                   "oracle_failures_per_class": meta.get("oracle_failures_per_class", {}),
                   "model_vs_impl_cases": n, "model_vs_impl_disagreements": len(kept),
-                  "model_vs_impl_disagreements_inside_failed_histories": skipped},
+                  "model_vs_impl_disagreements_inside_failed_histories": skipped, "inventory": inventory(cfg)},
     }
 
 COMMON_ASSUMPTIONS = [
